@@ -5,7 +5,7 @@ from __future__ import annotations
 
 from cfdppy import CfdpState
 from cfdppy.filestore import NativeFilestore
-from xmc import clock
+from xmc import clock, sandbox
 from xmc.engine import World
 
 from . import core
@@ -105,6 +105,11 @@ class E2EWorld(World):
 
     def prepare(self, c, vs, vd):
         return core.prepare_files(c)
+
+    def rewrite_source(self, st, data):
+        with open(core.SRC_PATH, "wb") as f:
+            f.write(data)
+        sandbox.invalidate()
 
     def make_probe(self, st):
         return Probe(self.dest_path)
@@ -249,7 +254,11 @@ class E2EWorld(World):
             self._send(st, ev[1], msgs)
         elif k == "put2":
             c2 = dict(self.c)
-            c2.update(self.cfg["tx2"])
+            c2.update({k2: v for k2, v in self.cfg["tx2"].items() if k2 != "rewrite"})
+            if self.cfg["tx2"].get("rewrite") and not self.c["md_only"]:
+                # the source file was rewritten (same length, other bytes) since the first transaction
+                st.src_data = bytes(b ^ 0x5A for b in st.src_data)
+                self.rewrite_source(st, st.src_data)
             st.ntx = 2
             st.fin = {"S": [], "D": []}
             obs, msgs, ret = st.S.call(st.S.h.put_request, core.put_request(c2))
